@@ -715,6 +715,10 @@ pub fn cmd_wirefaults(tier: &str, seed: u64, workers: usize, out: &str, replay_d
     for mi in 0..msgs.len() as u64 {
         jobs.push((b'C', mi, 0));
     }
+    // E: every Unicode scalar value substituted into each position of representative messages
+    for chunk in 0..(0x110000u64 / 0x8000) {
+        jobs.push((b'E', chunk, 0));
+    }
     let n_seeded: u64 = if thorough { 40_000_000 } else { 2_000_000 };
     let mut st = 0;
     while st < n_seeded {
@@ -765,7 +769,7 @@ pub fn cmd_wirefaults(tier: &str, seed: u64, workers: usize, out: &str, replay_d
                                 }
                                 Err(_) => judge(kind, text),
                             };
-                            if !matches!(r, Ok(false)) || text.chars().any(|c| !c.is_ascii()) {
+                            if !matches!(r, Ok(false)) || (!fault.starts_with("every_scalar") && text.chars().any(|c| !c.is_ascii())) {
                                 if distinct.len() < FPSET_CAP {
                                     let mut f = Fp::new();
                                     f.u8(kind as u8);
@@ -845,6 +849,34 @@ pub fn cmd_wirefaults(tier: &str, seed: u64, workers: usize, out: &str, replay_d
                                 }
                             }
                         }
+                        b'E' => {
+                            let reps: &[&str] = if thorough { &["a1n", "h8w", "d4e", "e5s", "c3n", "f6w", "a8s", "h1e", "p", "r", "E"] } else { &["a1n", "h8w", "d4e", "e5s", "p", "r"] };
+                            let lo = a * 0x8000;
+                            let mut cnt = 0u64;
+                            for cp in lo..lo + 0x8000 {
+                                if let Some(c) = char::from_u32(cp as u32) {
+                                    for m in reps {
+                                        let base: Vec<char> = m.chars().collect();
+                                        for i in 0..base.len() {
+                                            if base[i] == c {
+                                                continue;
+                                            }
+                                            let mut v = base.clone();
+                                            v[i] = c;
+                                            let t: String = v.into_iter().collect();
+                                            check(&t, "every_scalar_value_substituted", &mut fails);
+                                            cnt += 1;
+                                        }
+                                    }
+                                    // and as a one-character string of its own
+                                    let mut one = String::new();
+                                    one.push(c);
+                                    check(&one, "every_scalar_value_alone", &mut fails);
+                                    cnt += 1;
+                                }
+                            }
+                            *kinds.entry("fault.every_unicode_scalar_in_each_position".into()).or_insert(0) += cnt;
+                        }
                         b'C' => {
                             *kinds.entry("fault.concatenated_messages".into()).or_insert(0) += msgs.len() as u64;
                             for m2 in &msgs {
@@ -908,7 +940,7 @@ pub fn cmd_wirefaults(tier: &str, seed: u64, workers: usize, out: &str, replay_d
         "part": "wire_faults_and_codec_table",
         "evaluations": g.evals + table_evals,
         "distinct_nontrivial": g.distinct.len(),
-        "rule": "codec table (263 actions, 64 squares, 6 pieces, 4 directions: a finite table enumerated completely, not a simulation); every string of length <= 3 (quick) / <= 4 (thorough) over the alphabet; every single fault on every well-formed message and pairs of faults (a quarter of the messages in quick, all in thorough); every concatenation of two messages; seeded longer strings; each handed to the Action, Square, Piece and Direction parsers under catch_unwind; non-trivial = distinct (parser, string) cases that were accepted, panicked, or contain a non-ASCII character",
+        "rule": "codec table (263 actions, 64 squares, 6 pieces, 4 directions: a finite table enumerated completely, not a simulation); every string of length <= 3 (quick) / <= 4 (thorough) over the alphabet; every single fault on every well-formed message and pairs of faults (a quarter of the messages in quick, all in thorough); every concatenation of two messages; every Unicode scalar value substituted into each position of representative messages and alone; seeded longer strings; each handed to the Action, Square, Piece and Direction parsers under catch_unwind; non-trivial = distinct (parser, string) cases that were accepted, panicked, or contain a non-ASCII character",
         "samples": [
             {"string": "a1n", "parsers": "Action, Square, Piece, Direction"},
             {"string": "aén", "note": "multi-byte character inside a three-character message"},
